@@ -1140,6 +1140,10 @@ class ConcatScenario(BaseScenario):
                 "pgs": {k: {"uid": v["uid"], "type": v["type"], "members": list(v["members"])} for k, v in live["pgs"].items()}}
         del live_holes, new
         w.groups[nguid] = model_new
+        # the copy inherits the primitive type each data label holds (mixing types under one label is the C04 known finding)
+        for (gg, label), dk in list(w.label_dk.items()):
+            if gg == g:
+                w.label_dk.setdefault((nguid, label), dk)
         w.copy_pairs.add(frozenset((g, nguid)))
         w.created_groups = {nguid}
         w.touched = {nguid}
@@ -1194,6 +1198,12 @@ class ConcatScenario(BaseScenario):
                 w.sim.probe("table_lists_hole_without_group")
                 continue
             members = hm["pgs"][pg_name]["members"]
+            depth_cols = names[1:3] if len(names) > 2 and names[1].upper().startswith("FROM") else names[1:2]
+            if not all(c in members for c in depth_cols):
+                # this hole's table of that name has differently named depth columns (DEPTH(1), ...): the view, keyed by
+                # data names, shows another table of the hole here -- not judged
+                w.sim.probe("table_other_depth_column")
+                continue
             n = len(hm["data"][members[0]]["values"]) if members else 0
             for ci, col in enumerate(names[1:]):
                 got = [r[ci] for r in by_hole[h2]]
